@@ -1049,7 +1049,7 @@ def c16(ctx):
     from jobshoplab.compiler.repos import SpecRepository
     cfg = jsl.with_cfg(jsl.load_config(), early=True)
     n = 0
-    files = sorted((Path(jsl.REPO) / "data" / "jssp_instances" / "spec_files").iterdir())
+    files = sorted(f for f in (Path(jsl.REPO) / "data" / "jssp_instances" / "spec_files").iterdir() if f.is_file())
     rng = random.Random(ctx.seed)
     pick = files if not ctx.quick() else rng.sample(files, min(12, len(files)))
     for f in pick:
